@@ -28,6 +28,7 @@ type countingConn struct {
 	counts map[int]int // publish index -> packets
 	last   *time.Time
 	rgate  *gate // back-pressure: reads wait while the gate is shut
+	busy   *atomic.Int32 // writes entered and not yet returned (all links of the mesh)
 }
 
 func (c *countingConn) Read(b []byte) (int, error) {
@@ -51,6 +52,10 @@ func (c *countingConn) Write(b []byte) (int, error) {
 				}
 			}
 		}
+	}
+	if c.busy != nil {
+		c.busy.Add(1)
+		defer c.busy.Add(-1)
 	}
 	return c.Conn.Write(b)
 }
@@ -551,6 +556,7 @@ func runMesh(m *mesh, keys []keyInfo) {
 	linkCounts := map[[3]int]map[int]int{}
 	conns := map[int][2]net.Conn{}
 	gates := map[[2]int]*gate{} // (reading node, link id)
+	var busy atomic.Int32
 	defer func() {
 		for _, c := range conns {
 			_ = c[0].Close()
@@ -576,8 +582,8 @@ func runMesh(m *mesh, keys []keyInfo) {
 			linkCounts[[3]int{v, u, lid}] = map[int]int{}
 		}
 		gates[[2]int{u, lid}], gates[[2]int{v, lid}] = newGate(), newGate()
-		cu := &countingConn{Conn: a, mu: &mu, counts: linkCounts[[3]int{u, v, lid}], last: &lastEvent, rgate: gates[[2]int{u, lid}]}
-		cv := &countingConn{Conn: b, mu: &mu, counts: linkCounts[[3]int{v, u, lid}], last: &lastEvent, rgate: gates[[2]int{v, lid}]}
+		cu := &countingConn{Conn: a, mu: &mu, counts: linkCounts[[3]int{u, v, lid}], last: &lastEvent, rgate: gates[[2]int{u, lid}], busy: &busy}
+		cv := &countingConn{Conn: b, mu: &mu, counts: linkCounts[[3]int{v, u, lid}], last: &lastEvent, rgate: gates[[2]int{v, lid}], busy: &busy}
 		mu.Unlock()
 		up[lid] = l
 		nodes[u].AddPeerStream(pubsub.PeerLinkTuple{PeerID: keys[v].id, LinkID: uint64(lid)}, true, &fakeMS{conn: cu, pid: keys[v].id})
@@ -679,13 +685,19 @@ func runMesh(m *mesh, keys []keyInfo) {
 	}
 
 	quiet := func() {
-		waitFor(3*time.Second, 2*time.Millisecond, func() bool {
+		waitFor(8*time.Second, 2*time.Millisecond, func() bool {
 			if dead() {
 				return true
+			}
+			if busy.Load() != 0 {
+				return false // a packet is being written (possibly to a reader that is slow or gated)
 			}
 			for _, fs := range nodes {
 				if sn := safeSnap(fs); sn == nil || sn.PublishQueue != 0 {
 					return false
+				}
+				if fs.VerifQueued() != 0 {
+					return false // packets waiting behind a blocked writer
 				}
 			}
 			mu.Lock()
